@@ -553,6 +553,27 @@ func (w *walker) transfer(st *wstate, in ssa.Instruction, prev *ssa.BasicBlock) 
 			st.vals[x] = avSymOf(x)
 			return
 		}
+		if bi, ok := x.Call.Value.(*ssa.Builtin); ok && (bi.Name() == "min" || bi.Name() == "max") && len(x.Call.Args) > 0 {
+			// the builtin on constants: evaluated; otherwise symbolic
+			var best constant.Value
+			allConst := true
+			for _, a := range x.Call.Args {
+				av := w.eval(st, a)
+				if av.k != avConst || av.c == nil || (av.c.Kind() != constant.Int && av.c.Kind() != constant.Float) {
+					allConst = false
+					break
+				}
+				if best == nil || (bi.Name() == "min" && constant.Compare(av.c, token.LSS, best)) || (bi.Name() == "max" && constant.Compare(av.c, token.GTR, best)) {
+					best = av.c
+				}
+			}
+			if allConst && best != nil {
+				st.vals[x] = &absVal{k: avConst, c: best}
+			} else {
+				st.vals[x] = avSymOf(x)
+			}
+			return
+		}
 		// an unmodelled call may write through every pointer it is given
 		for _, a := range x.Call.Args {
 			if pv := w.eval(st, a); pv.k == avPtr && strings.HasPrefix(pv.key, "A:") {
